@@ -236,6 +236,9 @@ func (wtr *XMLWtr) getStringValue(p *node.Path, v val.Value) (string, error) {
 	case val.FmtDecimal64:
 		f := v.Value().(float64)
 		stringValue = strconv.FormatFloat(f, 'f', -1, 64)
+	case val.FmtEmpty:
+		// RFC7950 Sec 9.11.2 an empty element
+		stringValue = ""
 	default:
 		stringValue = v.String()
 	}
